@@ -107,3 +107,27 @@ Proof.
     + apply beqb_eq in E. subst k0. intros [H|H]; [inversion H; auto|auto].
     + intros [H|H]; [auto|]. destruct (IH H) as [X|X]; auto.
 Qed.
+
+Lemma dset_new_app {A} (k : bytes) (v : A) d : dget k d = None -> dset k v d = d ++ [(k, v)].
+Proof.
+  induction d as [|[k0 v0] d IH]; cbn; [reflexivity|].
+  destruct (beqb k0 k); [discriminate|]. intros H. now rewrite IH.
+Qed.
+
+Lemma keys_dset_both {A B} k (v1 : A) (v2 : B) : forall d1 d2,
+  map fst d1 = map fst d2 -> map fst (dset k v1 d1) = map fst (dset k v2 d2).
+Proof.
+  induction d1 as [|[k1 x1] d1 IH]; intros [|[k2 x2] d2] H; cbn in H; try discriminate; [reflexivity|].
+  inversion H as [[Hk Ht]]. subst k2. cbn. destruct (beqb k1 k); cbn; [now rewrite Ht|now rewrite (IH d2 Ht)].
+Qed.
+
+Lemma dmem_false_dget {A} k (d : list (bytes * A)) : dmem k d = false <-> dget k d = None.
+Proof. unfold dmem. destruct (dget k d); split; intros; congruence. Qed.
+
+Lemma existsb_false_forall {A} (f : A -> bool) l : existsb f l = false <-> forall x, In x l -> f x = false.
+Proof.
+  induction l as [|y l IH]; cbn; [split; [intros _ x []|reflexivity]|].
+  rewrite orb_false_iff, IH. split.
+  - intros [H1 H2] x [E|Hx]; [now subst|now apply H2].
+  - intros H. split; [apply H; now left|intros x Hx; apply H; now right].
+Qed.
